@@ -276,9 +276,56 @@ def gen_filter_norm(src):
             raise Unrecognised('filter_thru: guard in the denominator')
         return None
     den_t = rexpr(den, {'sumfilt': 'sumfilt'}, 'Q', hookQ)
+    # ---- the pixel-width factor: `pixnorm, logdiff = traceset2xy(diffset)` followed by zero or more `logdiff = f(logdiff)`
+    start = None
+    for k, st in enumerate(fn.body):
+        if isinstance(st, ast.Assign) and isinstance(st.targets[0], ast.Tuple) and len(st.targets[0].elts) == 2 \
+                and isinstance(st.targets[0].elts[1], ast.Name) and st.targets[0].elts[1].id == 'logdiff' \
+                and isinstance(st.value, ast.Call) and call_name(st.value.func) == 'traceset2xy':
+            start = k
+    if start is None:
+        raise Unrecognised('filter_thru: logdiff is not taken from traceset2xy')
+    logdiff_t = 'fitted'
+    for st in fn.body[start + 1:]:
+        if isinstance(st, ast.Assign) and len(st.targets) == 1 and isinstance(st.targets[0], ast.Name) \
+                and st.targets[0].id == 'logdiff':
+            v = st.value
+            if isinstance(v, ast.Call) and call_name(v.func) in ('absolute', 'abs', 'fabs') and len(v.args) == 1 \
+                    and isinstance(v.args[0], ast.Name) and v.args[0].id == 'logdiff' and not v.keywords:
+                logdiff_t = '(Qabs %s)' % logdiff_t
+            else:
+                logdiff_t = rexpr(v, {'logdiff': logdiff_t}, 'Q')
+    # ---- the weight image: filtimg = logdiff * <interpolated response>
+    weight_t = None
+    for n in ast.walk(fn):
+        if isinstance(n, ast.Assign) and len(n.targets) == 1 and isinstance(n.targets[0], ast.Name) \
+                and n.targets[0].id == 'filtimg':
+            v = n.value
+            if not (isinstance(v, ast.BinOp) and isinstance(v.op, ast.Mult)):
+                raise Unrecognised('filter_thru: filtimg is not a product')
+
+            def is_interp(e):
+                return any(isinstance(c, ast.Call) and call_name(c.func) == 'interp' for c in ast.walk(e))
+            sides = []
+            for side in (v.left, v.right):
+                if isinstance(side, ast.Name) and side.id == 'logdiff':
+                    sides.append('logdiff')
+                elif is_interp(side) and 'logdiff' not in {m.id for m in ast.walk(side) if isinstance(m, ast.Name)} - {'logdiff'} \
+                        and not any(isinstance(m, ast.BinOp) for m in ast.walk(side)):
+                    sides.append('resp')
+                else:
+                    raise Unrecognised('filter_thru: factor of filtimg')
+            if sorted(sides) != ['logdiff', 'resp']:
+                raise Unrecognised('filter_thru: filtimg factors %s' % sides)
+            weight_t = '%s * %s' % tuple(sides)
+    if weight_t is None:
+        raise Unrecognised('filter_thru: filtimg not found')
     out = ['(* filter_thru, pydl/pydlspec2d/spec2d.py line %d: res = sum(flux * filtimg) / denominator *)' % fn.lineno,
            'Open Scope Q_scope.',
            'Definition filter_norm (res sumfilt : Q) : Q := res / %s.' % den_t,
+           '(* pixel width d(log lambda): the fitted trace-set value as the source post-processes it; weight = width * response *)',
+           'Definition filter_logdiff (fitted : Q) : Q := %s.' % logdiff_t,
+           'Definition filter_weight (logdiff resp : Q) : Q := %s.' % weight_t,
            'Close Scope Q_scope.', '']
     return out
 
@@ -286,7 +333,7 @@ def gen_filter_norm(src):
 def generate(repo):
     info = {'recognised': True, 'detail': []}
     out = ['(* GENERATED by translate/c19.py from pydl/goddard/astro.py, pydl/photoop/sdssio.py, pydl/pydlspec2d/spec2d.py -- do not edit *)',
-           'From Coq Require Import Reals QArith List Bool.', 'Import ListNotations.', '']
+           'From Coq Require Import Reals QArith Qabs List Bool.', 'Import ListNotations.', '']
     try:
         out += gen_airvac(open(os.path.join(repo, 'pydl/goddard/astro.py')).read())
         out += gen_flux2ab(open(os.path.join(repo, 'pydl/photoop/sdssio.py')).read())
